@@ -57,7 +57,7 @@ theorem jfresh_afterReply {c : Conn} (h : JFresh c) : JFresh (afterReply c) :=
   ⟨fun p hp => by have := h.out p hp; show p.1 < c.sess.nextOut + 1; omega, h.inb⟩
 
 theorem est_afterReply {c : Conn} (h : Est c) : Est (afterReply c) :=
-  ⟨h.st, h.was, h.sock, h.noreq, h.posIn, jfresh_afterReply h.fresh, h.asciiS, h.asciiT⟩
+  ⟨h.st, h.was, h.sock, h.noreq, h.posIn, jfresh_afterReply h.fresh, h.latinS, h.latinT⟩
 
 /-- an established, synchronised pair -/
 structure Sync (ci ca : Conn) : Prop where
